@@ -453,7 +453,7 @@ def run_check(prop, tier, seed, args):
         lines.append(f"VIOLATION property={prop} replay={p}")
     for sig, k in sorted(known_here.items()):
         print(f"KNOWN-FINDING: property={prop} {sig} {k['what']} (hits this run: {known_hits.get(sig, 0)})")
-    for ln in lines:
+    for ln in dict.fromkeys(lines):
         print(ln)
 
     wall = time.time() - t0
